@@ -329,6 +329,32 @@ def _ends(stmts) -> bool:
     return bool(stmts) and isinstance(stmts[-1], (ast.Return, ast.Raise, ast.Continue, ast.Break))
 
 
+def _quantifier_branch_pass(fn) -> bool:
+    """`if all(E for v in IT): A  else: B` with B ending in return/raise is `for v in IT: if not E: B` followed by A
+    (the first element that fails takes the else branch; if none fails, A runs)."""
+    changed = False
+    for owner, field, lst in list(_stmt_lists(fn)):
+        new = []
+        for st in lst:
+            t = st.test if isinstance(st, ast.If) else None
+            if (t is not None and isinstance(t, ast.Call) and isinstance(t.func, ast.Name) and t.func.id == "all" and len(t.args) == 1 and not t.keywords
+                    and isinstance(t.args[0], (ast.GeneratorExp, ast.ListComp)) and len(t.args[0].generators) == 1 and not t.args[0].generators[0].ifs
+                    and st.orelse and _ends(st.orelse)):
+                gen = t.args[0].generators[0]
+                inner = ast.If(test=ast.UnaryOp(op=ast.Not(), operand=t.args[0].elt), body=list(st.orelse), orelse=[])
+                loop = ast.For(target=gen.target, iter=gen.iter, body=[inner], orelse=[])
+                ast.copy_location(loop, st)
+                ast.copy_location(inner, st)
+                ast.fix_missing_locations(loop)
+                new.append(loop)
+                new.extend(st.body)
+                changed = True
+            else:
+                new.append(st)
+        setattr(owner, field, new)
+    return changed
+
+
 def _tail_pass(fn) -> bool:
     """`if c: x = A  elif d: x = B  else: x = C` followed directly by `return x`: the return goes into every branch
     (`return A` ...), so that a result computed by a helper is returned by the branch that computed it."""
@@ -556,6 +582,7 @@ def normalise(repo, finfo, keep=(), helpers=True, aliases=True, comps=True, ifex
     if fn is finfo.node:
         fn = inline._copy_node(fn)
     _allany_pass(fn)
+    _quantifier_branch_pass(fn)
     _redundant_guard_pass(fn)
     _unroll_pass(fn)
     _while_true_pass(fn)
